@@ -57,7 +57,7 @@ func c15RunCLI(cs c15Case, v0 *c14VCS, rec c15Rec, signed *[]string) error {
 	args := []string{"endorse", "--quiet", "--uefi", fwPath, "--out_dir", "out", "--clspec", fmt.Sprint(r.cl),
 		"--commit_retries", fmt.Sprint(cs.budget), "--timestamp", r.ts.Format(time.RFC3339)}
 	if r.snp {
-		args = append(args, "--add_snp", "--snp_launch_vmsas", fmt.Sprint(r.vm), "--snp_product", []string{"", "Milan", "Genoa"}[r.prod])
+		args = append(args, "--add_snp", "--snp_launch_vmsas", fmt.Sprint(r.vm), "--snp_product", []string{"", "Milan", "Genoa", "Turin"}[r.prod])
 		if r.iid != "" {
 			args = append(args, "--snp_image_id", r.iid)
 		}
